@@ -20,6 +20,9 @@ Cases == {[fam |-> "hostile", proto |-> p, limit |-> l, class |-> c, lenval |-> 
              p \in Protos, l \in Limits, c \in Classes, v \in 1..3}
     \cup {[fam |-> "hostile", proto |-> p, limit |-> l, class |-> "lenfield", lenval |-> lv, variant |-> 1, expect |-> "robust"] :
              p \in Protos, l \in Limits, lv \in LenVals}
+    \* length information given twice, or negative (only the http-style protocol can express it: repeated / signed Content-Length)
+    \cup {[fam |-> "hostile", proto |-> "http", limit |-> l, class |-> cl, lenval |-> "-", variant |-> 1, expect |-> "robust"] :
+             l \in Limits, cl \in {"duplen", "neglen"}}
 
 VARIABLES c, done
 vars == <<c, done>>
